@@ -66,6 +66,14 @@ def literal_spellings():
               '"\\"', '"\\\\"', '#"a"b"#', '##"a"#b"##', '#"a"', '"a"#', "r'\\n'", 'r"\\"', "r#'a'b'#", 'f"{1}"', 'f"{1:>5}"', 'f"{1:}"',
               'f"{"', 'f"}"', 'f"{{}}"', 'f"{{{1}}}"', 'f"{f"{1}"}"', "f'{\"a\"}'", 'f"{1:{2}}"', 'f"{}"', 'f"{1:>5"']:
         L.append("let a = %s;" % s)
+    # the literal parts of a formatted string obey the literal grammar too: every escape-like piece directly before and
+    # after an interpolation, at both ends, in both quote kinds and inside fences
+    pieces = ["\\", "\\\\", "\\n", "\\q", "\\u{41}", "\\u{", "\\u", "{{", "}}", "#", "\\{", "\\}", "\\\\\\"]
+    for q, oq in (('"', "'"), ("'", '"')):
+        for pc in pieces + [oq, "\\" + q]:
+            for shape in ("%s{x}", "{x}%s", "a%s{x}b", "{x}%s{x}", "%s", "a%s"):
+                L.append("let x = 1;\nlet a = f%s%s%s;" % (q, shape % pc, q))
+                L.append("let x = 1;\nlet a = f#%s%s%s#;" % (q, shape % pc, q))
     for d in (1, 8, 32, 63, 64):
         L += ["let a = " + "(" * d + "1" + ")" * d + ";", "let a = " + "[" * d + "1" + "]" * d + ";",
               "let a = " + "(" * d + "1" + ")" * (d - 1) + ";", "let a = " + "-" * d + "1;", "let a = " + "!" * d + "true;",
